@@ -210,14 +210,26 @@ EvFollowProbe ==
          want == {E.appended[j].id : j \in {j \in 1..Len(E.appended) :
                       /\ E.appended[j].ctx = E.ctx
                       /\ (E.route = "head" => E.appended[j].topic = E.topic)}}
-     IN Judge((IF E.status # 200 THEN {"C13"} ELSE {})
+         \* with a limit (and a heartbeat): exactly the first `lim` frames of the context - history, then live -
+         \* pulses are not counted, and the stream ends by itself
+         avail == Cands(g, E.ctx, NOID)
+         \* known finding C03-future-dated-history-drops-live: the replayed history of the context holds a frame
+         \* whose id lies above the ids of the frames appended meanwhile (an imported frame dated ahead of the
+         \* clock); the live side drops everything at or below the last scanned id, i.e. all of them
+         futureHist == \E i \in avail : \E j \in 1..Len(E.appended) : E.appended[j].ctx = E.ctx /\ i > E.appended[j].id
+         short == E.route = "catlim" /\ Len(E.res) # (IF Cardinality(avail) < E.lim THEN Cardinality(avail) ELSE E.lim)
+                     /\ avail \cap g.evictable = {}
+     IN
+     /\ known' = IF short /\ futureHist THEN known \cup {"C03-future-dated-history-drops-live"} ELSE known
+     /\ Judge((IF E.status # 200 THEN {"C13"} ELSE {})
+              \cup (IF short /\ ~futureHist THEN {"C11", "C13"} ELSE {})
               \cup (IF \E j \in 1..Len(E.res) : E.res[j].ctx # E.ctx THEN {"C06"} ELSE {})
               \cup (IF E.route = "head" /\ \E j \in 1..Len(E.res) : E.res[j].topic # E.topic THEN {"C05", "C13"} ELSE {})
-              \cup (IF ~(want \subseteq got) THEN {"C03", "C13"} ELSE {})
+              \cup (IF E.route # "catlim" /\ ~(want \subseteq got) THEN {"C03", "C13"} ELSE {})
               \* (the first line of head --follow is the current head, which may be an imported frame with any id)
               \cup (IF \E a, c \in (IF E.route = "head" THEN 2 ELSE 1)..Len(E.res) : a < c /\ E.res[a].id >= E.res[c].id
                     THEN {"C03", "C13"} ELSE {}))
-  /\ UNCHANGED <<b, g, met, owed, lost, imported, src, known>>
+  /\ UNCHANGED <<b, g, met, owed, lost, imported, src>>
 
 (* C10: content reads back byte for byte, the hash is a function of the bytes, every visible hash has content *)
 EvCas ==
